@@ -1,47 +1,23 @@
 #!/usr/bin/env python3
-"""regenerates /verif/MANIFEST.json from the table below (run after adding a check)"""
+"""regenerates /verif/MANIFEST.json from checks/manifest/<id>.json (one file per claimed property:
+category, design_ref, text, note, technique) and checks/manifest/NA.json (id -> reason for the ones not
+claimed).  Run after adding a check."""
 import json, os, sys
 ROOT = os.path.dirname(os.path.dirname(os.path.abspath(__file__)))
 ALL = ["C%02d" % i for i in range(1, 21)]
+NOT_YET = "no check built yet (design in DESIGN.md section 4)"
 
-CHECKS = {
- "C12": dict(
-   category="proof", design_ref="DESIGN.md section 4, C12",
-   text="Coq theorems over a line-by-line model of RowLegalizer: legality of the placement for every history of fitting pushes and "
-        "queries, purity/exactness of the cost query in every reachable state, soundness (all inputs) of a dual-certificate optimality "
-        "checker; optimality and cost-sum of the algorithm itself: bounded theorem over three explicit finite domains plus the proved "
-        "checker run on every case. Tie: exact diff of the C++ class against the extracted model on exhaustive small-bounds and random "
-        "histories up to 2^22, proved checker applied to the C++ positions.",
-   note="Trusted: Coq kernel, extraction (ExtrOcamlBasic), OCaml driver glue, C++ harness/generator, g++. Model is hand-written; unbounded "
-        "optimality of cascading descent is not proved (bounded + validated).",
-   technique="Coq proof (invariant by induction over operation histories, LP-duality certificate) + differential correspondence"),
-
- "C15": dict(
-   category="proof", design_ref="DESIGN.md section 4, C15",
-   text="Coq theorems over an interval-subtraction model of Row::freespace / Circuit::computeRows: column-exactness (a column is returned "
-        "iff no positive-area obstacle meeting the row's y-range touches it), segments non-empty/sorted/disjoint/inside, full height and "
-        "orientation kept, movable and non-obstruction cells ignored, obstacle order irrelevant -- all for every row and obstacle list. Tie: "
-        "exact equality of segment lists with the C++ (which delegates to boost::polygon) exhaustively on a small grid and on random "
-        "instances incl. Circuit-level flag combinations; the statement is re-checked column-wise on the C++ output.",
-   note="Trusted: Coq kernel, extraction, OCaml/C++ glue. boost::polygon is not modelled, the model is its contract; inverted rectangles "
-        "are outside the domain.",
-   technique="Coq proof (interval-list invariants, exactness by induction over the obstacle list) + exhaustive/random differential correspondence"),
-
- "C09": dict(
-   category="proof", design_ref="DESIGN.md section 4, C09",
-   text="Coq theorems: the code's pin offsets and placed sizes equal the DEF rotation/mirror compositions for all eight orientations and "
-        "all integers; Circuit::hpwl's sentinel loops compute the bounding-box half-perimeter sum; the incremental model's value and per-net "
-        "bounds equal the from-scratch ones after ANY history of position updates (invariant by induction over updates). Tie: exact "
-        "equality with the C++ on exhaustive small transforms, random circuits, x/y topologies over all cells and random subsets, update "
-        "histories; an independent from-scratch oracle is evaluated on the C++ output.",
-   note="Trusted: Coq kernel, extraction, OCaml/C++/python glue. The fixed-pin folding of x/yTopology is modelled and compared exactly but "
-        "its exactness is not proved (partial).",
-   technique="Coq proof (case analysis + lia for transforms; invariant by induction over update histories) + differential correspondence"),
-}
-NOT_YET = "no check built yet in this round (design in DESIGN.md section 4)"
-NA = {}
 
 def main():
+    md = os.path.join(ROOT, "checks", "manifest")
+    CHECKS = {}
+    for p in ALL:
+        f = os.path.join(md, p + ".json")
+        if os.path.exists(f) and os.path.exists(os.path.join(ROOT, "checks", p.lower() + ".py")):
+            CHECKS[p] = json.load(open(f))
+    NA = {}
+    if os.path.exists(os.path.join(md, "NA.json")):
+        NA = json.load(open(os.path.join(md, "NA.json")))
     m = json.load(open(os.path.join(ROOT, "MANIFEST.json")))
     m["checks"] = []
     for p in ALL:
@@ -53,7 +29,7 @@ def main():
                 "thorough_cmd": "./check %s --tier thorough" % p,
                 "evidence_file": "/verif/evidence/%s.json" % p,
                 "replay_cmd_template": "./check %s --replay {path}" % p,
-                "engine": "coq+correspondence",
+                "engine": c.get("engine", "coq+correspondence"),
                 "level_claimed": {"category": c["category"], "text": c["text"], "design_ref": c["design_ref"]},
                 "level_note": c["note"], "technique": c["technique"]})
     m["not_applicable"] = [{"property_id": p, "reason": NA.get(p, NOT_YET)} for p in ALL if p not in CHECKS]
@@ -66,6 +42,7 @@ def main():
         print("MANIFEST valid;", len(m["checks"]), "checks")
     except ImportError:
         print("jsonschema not available; not validated")
+
 
 if __name__ == "__main__":
     main()
